@@ -36,6 +36,7 @@ Event(ev) ==
          [] ev.ev = "connect" -> Connect(ev.a, ev.b)
          [] ev.ev = "disconnect" -> Disconnect(ev.a, ev.b)
          [] ev.ev = "destroy" -> Destroy(ev.a)
+         [] ev.ev = "destroy_from" -> DestroyFrom(ev.a, ev.b)
          [] ev.ev = "dropref" -> DropRef(ev.a)
          [] OTHER -> FALSE
     /\ ev.raised = FALSE
